@@ -6,8 +6,10 @@ Models: `Pyn.jitthreshold` (checked reads: the Python source does not guard them
 `Pyn.jitremoveNan`.  Which samples are kept is decided by NumPy (`data > thr`, `isnan`) before the
 kernels run; the kernels only build the new support.
 
-Proved: structure of the dropna support (every new start / end is a kept sample, as many starts as
-ends, so the support is a list of runs of kept samples).  Threshold: the two **known findings**
+Proved: the dropna support exactly — `removeNan_cover`: sample i is kept iff it lies in one of the runs
+`[start k, end k]` the kernel returns (every kept sample inside the new support, no dropped sample inside), for
+any mask of positive length (loop invariant `CoverInv`: closed runs + the run still open); and its structure
+(`removeNan_runs`: every new start / end is a kept sample, as many starts as ends).  Threshold: the two **known findings**
 are proved on the model as witnesses (multi-interval support loses a kept sample; one-sample series
 reads out of bounds); the positive statement for single-interval supports is decided by the oracle
 + correspondence run only.
@@ -89,6 +91,230 @@ theorem removeNan_runs (nan : Array Bool) (hn : 0 < nan.size) :
     · rename_i hc
       have hf : nan[nan.size - 1] = true := by simpa using hc
       simp [hf] at h4; omega
+
+/-! ### dropna: the runs returned are exactly the kept samples -/
+
+/-- sample `i` lies in one of the closed runs `[s[k], e[k]]` -/
+def Closed (s e : Array Nat) (i : Nat) : Prop :=
+  ∃ k, ∃ hk : k < e.size, ∃ hk2 : k < s.size, s[k] ≤ i ∧ i ≤ e[k]
+/-- … or in the run still open at the end of `s` -/
+def Open (s e : Array Nat) (i : Nat) : Prop :=
+  s.size = e.size + 1 ∧ ∃ h : s.size - 1 < s.size, s[s.size - 1] ≤ i
+
+theorem closed_push_s (s e : Array Nat) (t i : Nat) (hsz : s.size = e.size) :
+    Closed (s.push t) e i ↔ Closed s e i := by
+  constructor
+  · rintro ⟨k, hk, hk2, a, b⟩
+    have hks : k < s.size := by omega
+    exact ⟨k, hk, hks, by simpa [Array.getElem_push_lt hks] using a, b⟩
+  · rintro ⟨k, hk, hk2, a, b⟩
+    exact ⟨k, hk, by simp; omega, by simpa [Array.getElem_push_lt hk2] using a, b⟩
+
+theorem open_push_s (s e : Array Nat) (t i : Nat) (hsz : s.size = e.size) :
+    Open (s.push t) e i ↔ t ≤ i := by
+  constructor
+  · rintro ⟨_, h, a⟩
+    simpa using a
+  · intro h
+    exact ⟨by simp [hsz], by simp, by simpa using h⟩
+
+theorem closed_push_e (s e : Array Nat) (q i : Nat) (hsz : s.size = e.size + 1) :
+    Closed s (e.push q) i ↔ Closed s e i ∨ (s[e.size]'(by omega) ≤ i ∧ i ≤ q) := by
+  constructor
+  · rintro ⟨k, hk, hk2, a, b⟩
+    simp only [Array.size_push] at hk
+    rcases Nat.lt_or_ge k e.size with h | h
+    · exact Or.inl ⟨k, h, hk2, a, by simpa [Array.getElem_push_lt h] using b⟩
+    · have : k = e.size := by omega
+      subst this
+      exact Or.inr ⟨a, by simpa using b⟩
+  · rintro (⟨k, hk, hk2, a, b⟩ | ⟨a, b⟩)
+    · exact ⟨k, by simp; omega, hk2, a, by simpa [Array.getElem_push_lt hk] using b⟩
+    · exact ⟨e.size, by simp, by omega, a, by simpa using b⟩
+
+theorem not_open_of_eq (s e : Array Nat) (i : Nat) (hsz : s.size = e.size) : ¬ Open s e i := by
+  rintro ⟨h, _⟩; omega
+
+theorem not_open_push_e (s e : Array Nat) (q i : Nat) (hsz : s.size = e.size + 1) : ¬ Open s (e.push q) i := by
+  rintro ⟨h, _⟩; simp at h; omega
+
+/-- invariant of the scan after samples `0 .. t-1` -/
+def CoverInv (nan : Array Bool) (t : Nat) (s e : Array Nat) : Prop :=
+  (∃ h : t - 1 < nan.size, s.size = e.size + (if nan[t-1] = false then 1 else 0)) ∧
+  (∀ k, (hk : k < e.size) → e[k] + 1 < t) ∧
+  (∀ k, (hk : k < s.size) → s[k] < t) ∧
+  (∀ i, (hi : i < nan.size) → i < t → (nan[i] = false ↔ (Closed s e i ∨ Open s e i)))
+
+theorem removeNanLoop_cover (nan : Array Bool) (t : Nat) (ht : 1 ≤ t) (s e : Array Nat)
+    (h : CoverInv nan t s e) (htn : t ≤ nan.size) :
+    CoverInv nan nan.size (removeNanLoop nan t ht s e).1 (removeNanLoop nan t ht s e).2 := by
+  fun_induction removeNanLoop nan t ht s e with
+  | case1 t ht s e hlt s' e' ih =>
+    apply ih _ (by omega)
+    obtain ⟨⟨h0, hsz⟩, hE, hS, hC⟩ := h
+    unfold CoverInv
+    simp only [Nat.add_sub_cancel]
+    cases hp : nan[t-1] <;> cases hq : nan[t]
+    · -- kept, kept: nothing pushed, the run stays open
+      have es : s' = s := by simp [s', hp, hq]
+      have ee : e' = e := by simp [e', hp, hq]
+      rw [es, ee]
+      have hsz' : s.size = e.size + 1 := by simpa [hp] using hsz
+      refine ⟨⟨hlt, by simpa [hq] using hsz'⟩, fun k hk => by have := hE k hk; omega,
+        fun k hk => by have := hS k hk; omega, ?_⟩
+      intro i hi hit
+      rcases Nat.lt_or_ge i t with hlt' | hge
+      · exact hC i hi hlt'
+      · have : i = t := by omega
+        subst this
+        simp only [hq, true_iff]
+        right
+        have h1 : s.size - 1 < s.size := by omega
+        exact ⟨hsz', h1, by have := hS _ h1; omega⟩
+    · -- kept, NaN: the open run is closed at t-1
+      have es : s' = s := by simp [s', hp, hq]
+      have ee : e' = e.push (t-1) := by simp [e', hp, hq]
+      rw [es, ee]
+      have hsz' : s.size = e.size + 1 := by simpa [hp] using hsz
+      refine ⟨⟨hlt, by simp [hq, hsz']⟩, ?_, fun k hk => by have := hS k hk; omega, ?_⟩
+      · intro k hk
+        simp only [Array.size_push] at hk
+        rcases Nat.lt_or_ge k e.size with h | h
+        · have := hE k h; simp [Array.getElem_push_lt h]; omega
+        · have : k = e.size := by omega
+          subst this; simp; omega
+      · intro i hi hit
+        rw [closed_push_e s e (t-1) i hsz']
+        have hno := not_open_push_e s e (t-1) i hsz'
+        have hlast : s.size - 1 = e.size := by omega
+        rcases Nat.lt_or_ge i t with hlt' | hge
+        · rw [hC i hi hlt']
+          constructor
+          · rintro (h | ⟨_, h1, h2⟩)
+            · exact Or.inl (Or.inl h)
+            · left; right
+              refine ⟨?_, by omega⟩
+              simpa [hlast] using h2
+          · rintro ((h | ⟨h1, h2⟩) | h)
+            · exact Or.inl h
+            · right
+              exact ⟨hsz', by omega, by simpa [hlast] using h1⟩
+            · exact absurd h hno
+        · have : i = t := by omega
+          subst this
+          simp only [hq, Bool.true_eq_false, false_iff]
+          rintro ((⟨k, hk, hk2, a, b⟩ | ⟨a, b⟩) | h)
+          · have := hE k hk; omega
+          · omega
+          · exact hno h
+    · -- NaN, kept: a run opens at t
+      have es : s' = s.push t := by simp [s', hp, hq]
+      have ee : e' = e := by simp [e', hp, hq]
+      rw [es, ee]
+      have hsz' : s.size = e.size := by simpa [hp] using hsz
+      refine ⟨⟨hlt, by simp [hq, hsz']⟩, fun k hk => by have := hE k hk; omega, ?_, ?_⟩
+      · intro k hk
+        simp only [Array.size_push] at hk
+        rcases Nat.lt_or_ge k s.size with h | h
+        · have := hS k h; simp [Array.getElem_push_lt h]; omega
+        · have : k = s.size := by omega
+          subst this; simp
+      · intro i hi hit
+        rw [closed_push_s s e t i hsz', open_push_s s e t i hsz']
+        rcases Nat.lt_or_ge i t with hlt' | hge
+        · rw [hC i hi hlt']
+          constructor
+          · rintro (h | h)
+            · exact Or.inl h
+            · exact absurd h (not_open_of_eq s e i hsz')
+          · rintro (h | h)
+            · exact Or.inl h
+            · omega
+        · have : i = t := by omega
+          subst this
+          simp only [hq, true_iff]
+          exact Or.inr (Nat.le_refl _)
+    · -- NaN, NaN
+      have es : s' = s := by simp [s', hp, hq]
+      have ee : e' = e := by simp [e', hp, hq]
+      rw [es, ee]
+      have hsz' : s.size = e.size := by simpa [hp] using hsz
+      refine ⟨⟨hlt, by simpa [hq] using hsz'⟩, fun k hk => by have := hE k hk; omega,
+        fun k hk => by have := hS k hk; omega, ?_⟩
+      intro i hi hit
+      rcases Nat.lt_or_ge i t with hlt' | hge
+      · exact hC i hi hlt'
+      · have : i = t := by omega
+        subst this
+        simp only [hq, Bool.true_eq_false, false_iff]
+        rintro (⟨k, hk, hk2, a, b⟩ | h)
+        · have := hE k hk; omega
+        · exact not_open_of_eq s e _ hsz' h
+  | case2 t ht s e hge =>
+    have : t = nan.size := by omega
+    subst this; exact h
+
+theorem s0_lt (b : Bool) (k : Nat) (hk : k < (if (!b) = true then (#[0] : Array Nat) else #[]).size) :
+    (if (!b) = true then (#[0] : Array Nat) else #[])[k] < 1 := by
+  cases b
+  · simp at hk ⊢
+  · simp at hk
+
+/-- **dropna: the new support is exactly the kept samples.**  For any NaN mask of positive length, sample `i` is
+kept (not NaN) iff it lies in one of the runs `[start k, end k]` the kernel returns (as sample indices; the caller
+turns them into `[t[start k], t[end k]]`): every kept sample is inside the new support, no dropped sample is -/
+theorem removeNan_cover (nan : Array Bool) (hn : 0 < nan.size) (i : Nat) (hi : i < nan.size) :
+    nan[i] = false ↔ Closed (jitremoveNan nan hn).1 (jitremoveNan nan hn).2 i := by
+  have h0 : CoverInv nan 1 (if !nan[0] then #[0] else #[]) #[] := by
+    refine ⟨⟨by simpa using hn, ?_⟩, by simp, ?_, ?_⟩
+    · cases h : nan[0] <;> simp [h]
+    · intro k hk
+      exact s0_lt nan[0] k hk
+    · intro j hj hj1
+      have : j = 0 := by omega
+      subst this
+      cases h : nan[0]
+      · simp only [true_iff]
+        right
+        exact ⟨by simp, by simp, by simp⟩
+      · simp only [Bool.true_eq_false, false_iff]
+        rintro (⟨k, hk, _⟩ | ⟨hsz, _⟩)
+        · simp at hk
+        · simp at hsz
+  have := removeNanLoop_cover nan 1 (by omega) _ #[] h0 (by omega)
+  unfold jitremoveNan
+  simp only
+  generalize (if (!nan[0]) = true then (#[0] : Array Nat) else #[]) = s0 at *
+  obtain ⟨⟨h1, hsz⟩, hE, hS, hC⟩ := this
+  rw [hC i hi hi]
+  cases hl : nan[nan.size - 1]
+  · simp only [Bool.not_false, if_true]
+    have hsz' : (removeNanLoop nan 1 (by omega) s0 #[]).1.size = (removeNanLoop nan 1 (by omega) s0 #[]).2.size + 1 := by
+      simpa [hl] using hsz
+    rw [closed_push_e _ _ _ i hsz']
+    constructor
+    · rintro (h | ⟨_, h1', h2⟩)
+      · exact Or.inl h
+      · right
+        have e : (removeNanLoop nan 1 (by omega) s0 #[]).1.size - 1 = (removeNanLoop nan 1 (by omega) s0 #[]).2.size := by omega
+        exact ⟨by simpa [e] using h2, by omega⟩
+    · rintro (h | ⟨h1', h2⟩)
+      · exact Or.inl h
+      · right
+        have e : (removeNanLoop nan 1 (by omega) s0 #[]).1.size - 1 = (removeNanLoop nan 1 (by omega) s0 #[]).2.size := by omega
+        exact ⟨hsz', by omega, by simpa [e] using h1'⟩
+  · simp only [Bool.not_true, Bool.false_eq_true, if_false]
+    have hsz' : (removeNanLoop nan 1 (by omega) s0 #[]).1.size = (removeNanLoop nan 1 (by omega) s0 #[]).2.size := by
+      simpa [hl] using hsz
+    constructor
+    · rintro (h | h)
+      · exact h
+      · exact absurd h (not_open_of_eq _ _ i hsz')
+    · exact Or.inl
+
+
+-- non-vacuity: NaN runs at the start, in the middle, isolated kept singletons
+example : jitremoveNan #[true, false, false, true, false, true, true, false] (by decide) = (#[1, 4, 7], #[2, 4, 7]) := by decide +kernel
 
 /-! ### known findings, proved on the model -/
 
